@@ -1,3 +1,4 @@
+import AriesVerif.C17.Guards
 import AriesVerif.C17.Props
 import AriesVerif.C17.Algebra
 #print axioms Bbs.bitvector_testBit
@@ -14,3 +15,6 @@ import AriesVerif.C17.Algebra
 #print axioms Bbs.Algebra.vc1_complete
 #print axioms Bbs.Algebra.vc2_complete
 #print axioms Bbs.Algebra.vc2_binds_disclosed
+#print axioms Bbs.Guards.arity_is_exact
+#print axioms Bbs.Guards.index_in_range_checked
+#print axioms Bbs.Guards.enough_messages_checked
